@@ -109,6 +109,7 @@ def gen(seed, tier):
         'chain_name': rng.choice(['TEZOS_MAINNET', 'TEZOS_MAINNET', 'SANDBOXED_TEZOS']),
         'prebake': rng.choice([1, 2, 5]),
         'watch_only': rng.random() < 0.08,
+        'key_revealed': rng.random() < 0.5,
     }
     fault_free = rng.random() < 0.35
     enabled_faults = [f for f in FAULT_KINDS if rng.random() < 0.5]
@@ -156,6 +157,9 @@ def gen(seed, tier):
             st = {'op': op, 'g': g + ('b' if other else '')}
             if op == 'new':
                 st['contents'] = gen_contents(rng, n)
+                if rng.random() < 0.08:
+                    # a batch that starts by revealing the key (refused by the node when the key is revealed already)
+                    st['contents'] = [{'kind': 'reveal'}] + st['contents']
                 st['via'] = rng.choice(['chain', 'chain', 'bulk'])
                 if st['via'] == 'bulk' and rng.random() < 0.3:
                     st['stale_member'] = True
